@@ -388,10 +388,15 @@ package server
 // the session table (C08): a new session is created through newUDPSessionEntry with the
 // datagram's session ID and the manager's own IO (whose policy the entry then enforces)
 //@ guard call newUDPSessionEntry(id, io, df, ef) in (*udpSessionManager).feed
-//@   props C08
+//@   props C08 C07
 //@   requires id == msg.SessionID && io == m.io
+// (C07) a session is only ever added under a free ID: an entry that is still in the table is
+// never replaced - its exit callback removes the table's entry for its ID, which must be itself
+//@ guard mapinsert udpSessionManager.m(obj, k) in (*udpSessionManager).feed
+//@   props C07
+//@   requires obj == m && k == msg.SessionID && m.m[k] == nil
 //@ func (*udpSessionManager).feed
-//@   props C08
+//@   props C08 C07
 //@   nonil
 //@   requires msg != nil && m.m != nil
 //@   modifies any
